@@ -20,6 +20,7 @@ import os
 import random
 import re
 import subprocess
+import time
 
 from . import common
 from .common import Broken
@@ -830,8 +831,17 @@ def run_enums(ck, cproc, n):
             return ("unparsed", o[-200:])
         return ("ok", "%d%s" % (vals[0], "s" if vals[1] else "u"), vals[2], vals[3])
 
+    def oracles(ie):
+        # spec validation runs for the first 400 enums (quick) / all of them (thorough)
+        i, e = ie
+        if not (i < 400 or not ck.quick):
+            return None
+        g = observe(["gcc", "-w", "-S", "-o", "-"], e, True) if e[1] is None else ("n/a",)
+        return (g, observe(["clang", "-w", "-S", "-o", "-"], e, True))
+
     with concurrent.futures.ThreadPoolExecutor(common.NPROC) as ex:
         cobs = list(ex.map(lambda a: observe([cproc, "-t", a[1]], a[0], False), [(e, tg) for e in enums for tg in TARGETS]))
+        oobs = list(ex.map(oracles, enumerate(enums)))
     for i, e in enumerate(enums):
         stats["enums"] += 1
         ck.count(("enum", enum_drv(e)))
@@ -866,9 +876,8 @@ def run_enums(ck, cproc, n):
         # spec validation (clang for all targets is identical here; gcc 12 has no fixed enums and
         # rejects an implicit enumerator that overflows the previous one's type)
         s = out[6 * i + 1]        # x86-64 (gcc and clang run for the host triple)
-        if i < 400 or not ck.quick:
-            g = observe(["gcc", "-w", "-S", "-o", "-"], e, True) if e[1] is None else ("n/a",)
-            cl = observe(["clang", "-w", "-S", "-o", "-"], e, True)
+        if oobs[i] is not None:
+            g, cl = oobs[i]
             # gcc 12 / clang 14 accept (with a warning, wrapping the value) declarations that C23 makes
             # invalid, and gcc 12 rejects an implicit enumerator overflowing the previous one's type:
             # only a type the spec chooses can be contradicted by an oracle that accepts.
@@ -1179,12 +1188,20 @@ def run(ck):
                       "+ {char, int}.  Enums: generated enumerator lists around the int/unsigned/long boundaries with and "
                       "without fixed underlying type.  distinct_nontrivial counts distinct type descriptions."
                       % (3 if ck.quick else 4))
+    phase = ck.cov["phase_s"] = {}
+    t0 = [time.time()]
+
+    def lap(name):
+        phase[name] = round(time.time() - t0[0], 1)
+        t0[0] = time.time()
     ck.lean_build()
+    lap("lean_build")
     if not ck.proofs_ok:
         ck.notes.append("Props.C06 does not build; searching for a failing input")
     if not ck.drv_ok:
         raise Broken("drv_c06 does not build: " + ck.build_log[-1500:])
     cproc = ck.build_cproc_qbe()
+    lap("build_cproc_qbe")
     ck.kb = {}
     rng = ck.rng
     # 1. corpus
@@ -1198,6 +1215,7 @@ def run(ck):
     run_batches(ck, cproc, corpus, True, "corpus", batch=4)
     # 2. error branches
     nerr = run_errors(ck, cproc) if not ck.violations else 0
+    lap("corpus+errors")
     # 3. random types
     g = Gen(rng)
     n = 3000 if ck.quick else 100000
@@ -1211,6 +1229,7 @@ def run(ck):
     if not ck.violations:
         run_batches(ck, cproc, types, True, "rand")
     ck.sample({"type": PRELUDE + render(0, types[7])[0][:700], "drv": drv_type(types[7])[:300]})
+    lap("random_types")
     # 4. exhaustive bit-field sequences (cproc vs model vs spec; oracle on a sample)
     al = ex_alphabet()
     maxlen = 3 if ck.quick else 4
@@ -1232,7 +1251,9 @@ def run(ck):
         sample = rng.sample(ex, min(len(ex), 1500 if ck.quick else 20000))
         run_batches(ck, cproc, sample, True, "exh-oracle", batch=300, targets=lambda j: [TARGETS[j % 3]])
     # 5. enums
+    lap("exhaustive")
     est = run_enums(ck, cproc, 250 if ck.quick else 4000) if not ck.violations else {}
+    lap("enums")
     ck.cov["kb_stats"] = {k: v for k, v in ck.kb.items()}
     ck.cov["error_cases"] = nerr
     ck.cov["enum_stats"] = est
